@@ -358,6 +358,9 @@ type mon struct {
 	hostile  []c02.Case
 	hostileN int
 	reported map[string]int
+	// set when the size-limit probe found the limit not enforced: the cases that announce huge
+	// lengths are then skipped (each would make the node allocate up to 4 GiB)
+	limitBroken bool
 }
 
 func (m *mon) violationOnce(key, what string, replay interface{}) {
@@ -524,7 +527,7 @@ func (m *mon) corruptFrame(rng *rand.Rand, kind string, frame []byte, full bool,
 	for i := 0; i < hdrLen; i++ {
 		// the two high length bytes make ReadMessage allocate (and clear) up to 30 MB per case
 		// before it notices the stream is short: only a few frames per kind pay for that
-		if (i == 18 || i == 19) && !bigLen {
+		if (i == 18 || i == 19) && (!bigLen || m.limitBroken) {
 			continue
 		}
 		switch {
@@ -589,8 +592,12 @@ func (m *mon) corruptFrame(rng *rand.Rand, kind string, frame []byte, full bool,
 		m.judge(kind, setLen(frame, uint32(n)-1), frame, "length-1")
 		m.judge(kind, setLen(frame, 0), frame, "length=0")
 	}
-	m.judge(kind, setLen(frame, pc.MAX_PAYLOAD_LEN+1), frame, "length=limit+1")
-	m.judge(kind, setLen(frame, 0xFFFFFFFF), frame, "length=2^32-1")
+	if !m.limitBroken {
+		m.judge(kind, setLen(frame, pc.MAX_PAYLOAD_LEN+1), frame, "length=limit+1")
+		m.judge(kind, setLen(frame, 0xFFFFFFFF), frame, "length=2^32-1")
+	} else {
+		m.r.Count("skipped_huge_length_cases", 2)
+	}
 	// magic
 	for _, mg := range []uint32{0, testMagic + 1, testMagic ^ 0x80000000, config.GetNetworkMagic(config.NETWORK_ID_MAIN_NET), 0xFFFFFFFF} {
 		if mg == testMagic {
@@ -760,6 +767,9 @@ func TestC05(t *testing.T) {
 	allValues := r.N(0, 6)
 	nMut := r.N(6, 10)
 	nRewrite := r.N(12, 150)
+	// size limit first: a Version message whose payload is exactly MAX_PAYLOAD_LEN / one byte more
+	m.sizeLimit(r.Rand("size-limit"))
+
 	var frames [][]byte
 	for _, kind := range kinds {
 		for i := 0; i < perKind; i++ {
@@ -867,9 +877,6 @@ func TestC05(t *testing.T) {
 		}
 	}
 
-	// size limit: a Version message whose payload is exactly MAX_PAYLOAD_LEN / one byte more
-	m.sizeLimit(rng)
-
 	// random streams
 	for i := 0; i < r.N(3000, 60000); i++ {
 		var s []byte
@@ -960,6 +967,7 @@ func (m *mon) sizeLimit(rng *rand.Rand) {
 			}
 		} else {
 			if err == nil {
+				m.limitBroken = true
 				m.violationOnce("bad-frame-accepted:length-over-limit:real-payload", fmt.Sprintf("payload of MAX_PAYLOAD_LEN+1=%d bytes with a correct checksum was accepted", want), map[string]int{"payload": want})
 			} else {
 				r.Count("over_limit_rejected", 1)
